@@ -57,22 +57,22 @@ func (l *Loc) typ() types.Type {
 
 // Frame is one activation: the function being executed (top-level or inlined).
 type Frame struct {
-	id        int
-	fn        *ssa.Function
-	vals      map[ssa.Value]*Val
-	contract  *Contract
-	entry     *State // state at function entry (for old())
-	params    map[string]*Val
-	defers    []*ssa.Defer
-	deferSt   map[*ssa.Defer][]*Val
-	top       bool
-	returns   []retPoint
-	loops     *loopInfo
-	lockHeld  map[string]bool
-	depth     int
-	callspecs map[string]*Contract
+	id         int
+	fn         *ssa.Function
+	vals       map[ssa.Value]*Val
+	contract   *Contract
+	entry      *State // state at function entry (for old())
+	params     map[string]*Val
+	defers     []*ssa.Defer
+	deferSt    map[*ssa.Defer][]*Val
+	top        bool
+	returns    []retPoint
+	loops      *loopInfo
+	lockHeld   map[string]bool
+	depth      int
+	callspecs  map[string]*Contract
 	loopPolicy map[*ssa.BasicBlock]map[string]*loopKeyPolicy
-	parent    *Frame
+	parent     *Frame
 }
 
 type retPoint struct {
